@@ -16,7 +16,8 @@ rational), the subset grouping `N` of the filtered peptides (return value of
 `ObservedPeptides.generate_protein_groups`, property C03), and the finite map
 (sorted node list, s, t) -> cut of `graphs.minimum_st_node_cut`.
 
-Compared exactly (nested lists incl. order): the filtered peptide list, the identified group positions
+Compared exactly (nested lists incl. order): the filtered peptide list, the subset grouping N (recorded vs the
+model of Model/C03.lean; `rescueGroups`, which computes N itself, must give the same result), the identified group positions
 (sorted), the protein nodes and edges of the bipartite graph (sorted), the rescued groups, the merged
 groups, the placeholders and their peptide infos, the groups passed to the second competition.
 
@@ -205,15 +206,17 @@ class P(Prop):
         "noise; PEPs from an 8-point grid; mode direct (cutoff from the grid, first pass = subset grouping or an "
         "arbitrary partition) and mode pipeline (get_protein_group_results with 3 rescued-grouping methods, "
         "thresholds incl. ones no group reaches); non-trivial = at least one graph node (a group without a peptide "
-        "of its own) or a non-empty remnant or placeholder; distinct by sha1 of the case"
+        "of its own) or a non-empty remnant; distinct by sha1 of the case"
     )
     assumptions = [
-        "the recorded minimum_st_node_cut results are a function of (node set, s, t) within one run (each sub-graph is split once)",
-        "the subset grouping N of the filtered peptides is taken from the run (property C03 covers it)",
-        "PEPs are finite doubles; the cutoff float is read from the run and compared exactly",
+        "the recorded minimum_st_node_cut results are a function of (node set, s, t) within one run (each sub-graph is split once, keys are unique)",
+        "the theorems with a parameter N hold for every partition N; the recorded subset grouping of the filtered peptides is compared with the model of Model/C03.lean on every case, and rescue_partition_subset uses C03.subset_partition",
+        "PEPs are finite doubles (no NaN match-between-runs entries in the generated peptide lists); the cutoff float 10^(-score) is read from the run and compared exactly, the score it is computed from is modelled (rescueScore)",
+        "scores and q-values of the second competition are outside this model (properties C01, C02, C05)",
     ]
     trusted_extra = [
-        "networkx minimum_st_node_cut enters the model as a recorded finite map; every recorded cut is checked to be non-empty and to separate s from t",
+        "networkx minimum_st_node_cut enters the model as a recorded finite map (no theorem assumes anything about its values; an empty cut or a missing entry is a model error)",
+        "PgFdr/Model/C03.lean subsetGroups (used by rescueGroups and rescue_partition_subset)",
     ]
 
     # ------------------------------------------------------------------ generation
@@ -326,8 +329,11 @@ class P(Prop):
         if mode == "pipeline":
             case["method"] = rng.choice(PIPE_METHODS)
             case["threshold"] = rat(rng.choice([0.01, 0.05, 0.2, 0.34, 0.5, 0.51, 1.0, 1.01, 1e-9]))
+            case["keep_all"] = rng.random() < 0.5
         else:
             case["cutoff"] = rat(rng.choice(PEP_GRID + [0.05] * 10 + [0.011, 0.011, 1.0, 2.0, 0.0]))
+            if rng.random() < 0.03:  # a peptide without proteins (the first pass of the pipeline would reject it)
+                case["pil"].insert(rng.randint(0, len(pil)), ["PEPX", rat(strong()), []])
             if rng.random() < 0.25:
                 # arbitrary first-pass partition of a superset of the proteins
                 allp = sorted({p for ps, _ in peps for p in ps}) + (["X1", "X2"] if rng.random() < 0.5 else [])
@@ -382,7 +388,9 @@ class P(Prop):
             thr = float(unrat(case["threshold"]))
             _REC["on"] = rec
             try:
-                res = pgf.get_protein_group_results(pil, method_config=mc, protein_group_fdr_threshold=thr)
+                res = pgf.get_protein_group_results(
+                    pil, method_config=mc, protein_group_fdr_threshold=thr, keep_all_proteins=bool(case.get("keep_all"))
+                )
             except ValueError as e:
                 if "not enough values to unpack" in str(e):
                     return {"err": "no_ranked_groups", "stage": len(comp_calls)}
@@ -430,7 +438,7 @@ class P(Prop):
         if not isinstance(impl_out, dict) or "_rec" not in impl_out:
             return None
         r = impl_out["_rec"]
-        return {
+        req = {
             "op": "rescue",
             "pil": case["pil"],
             "cutoff": r["cutoff"],
@@ -439,12 +447,21 @@ class P(Prop):
             "infos": r["infos"],
             "cuts": r["cuts"],
         }
+        if case["mode"] == "pipeline" and r.get("first_results") is not None:
+            rows = [[rat(s), rat(q)] for _, s, q in r["first_results"]]
+            return [req, {"op": "rescue_score", "rows": rows, "threshold": case["threshold"]}]
+        return req
 
     def model_view(self, case, resp, impl_out):
+        score = None
+        if isinstance(resp, list):
+            resp, score = resp[0], resp[1]
         if "rescued" not in resp:
             return resp
         v = {
             "filtered": resp["filtered"],
+            "N": resp["N_model"],
+            "rescueGroups_with_model_N_agrees": resp["same_with_model_N"],
             "identified": sorted(set(resp["identified"])),
             "prot_nodes": sorted(resp["prot_nodes"]),
             "edges": sorted({(a, b) for a, b in resp["edges"]}),
@@ -456,6 +473,14 @@ class P(Prop):
         v["edges"] = [list(e) for e in v["edges"]]
         if case["mode"] == "pipeline":
             v["second_pass"] = resp["second_pass"] if impl_out.get("pgT") else resp["groups"]
+            if score is not None:
+                if "score" in score:
+                    import numpy as np
+
+                    f = unrat(score["score"])
+                    v["cutoff"] = rat(float(np.power(10, (f.numerator / f.denominator) * -1)))
+                else:
+                    v["cutoff"] = score
         return v
 
     def impl_view(self, case, impl_out):
@@ -465,6 +490,10 @@ class P(Prop):
         if case["mode"] == "pipeline":
             keys.append("second_pass")
         v = {k: impl_out[k] for k in keys}
+        v["N"] = impl_out["_rec"]["N"]
+        v["rescueGroups_with_model_N_agrees"] = True
+        if case["mode"] == "pipeline" and impl_out["_rec"].get("first_results") is not None:
+            v["cutoff"] = rat(unrat(impl_out["_rec"]["cutoff"]))
         v["filtered"] = [[k, rat(unrat(s)), ps] for k, s, ps in v["filtered"]]
         return v
 
@@ -592,27 +621,17 @@ class P(Prop):
                 fl = [p for g in sp for p in g if not p.startswith("OBSOLETE__")]
                 if len(set(fl)) != len(fl):
                     return "a protein enters the second competition in two groups: %r" % (sp,)
-        # -- recorded cuts: what the theorems assume about the oracle (checked on every recorded cut)
+        # -- recorded cuts: an empty cut would make the code re-queue the same graph forever (the model rejects it)
         for nodes_, s, t, cut in r["cuts"]:
             if not cut:
                 return "networkx returned an empty cut for (%r, %r)" % (s, t)
-            # s and t must be disconnected in the induced sub-graph without the cut
-            ns = set(nodes_) - set(cut)
-            es = [(a, b) for a, b in impl_out["edges"] if a in ns and b in ns]
-            ad = {x: set() for x in ns}
-            for a, b in es:
-                ad[a].add(b)
-                ad[b].add(a)
-            for c in _components(sorted(ns), ad):
-                if s in c and t in c:
-                    return "recorded cut %r does not separate %r from %r" % (cut, s, t)
         return None
 
     # ------------------------------------------------------------------ bookkeeping
     def nontrivial(self, case, impl_out):
         if not isinstance(impl_out, dict) or "_rec" not in impl_out:
             return False
-        return bool(impl_out["prot_nodes"]) or len(impl_out["groups"]) != len(impl_out["rescued"]) or bool(impl_out["obsolete"])
+        return bool(impl_out["prot_nodes"]) or len(impl_out["groups"]) != len(impl_out["rescued"])
 
     def features(self, case, impl_out):
         f = ["mode=" + case["mode"]]
@@ -627,6 +646,8 @@ class P(Prop):
         f.append("cut_calls=%s" % ("0" if nc == 0 else "1-3" if nc <= 3 else "4-10" if nc <= 10 else "11+"))
         if any(len(c[3]) >= 2 for c in r["cuts"]):
             f.append("cut_of_2+_nodes")
+        if any(not self._separates(impl_out["edges"], c) for c in r["cuts"]):
+            f.append("recorded_cut_does_not_separate")  # never seen; no theorem depends on it
         f.append("prot_nodes=%s" % (len(impl_out["prot_nodes"]) if len(impl_out["prot_nodes"]) < 6 else "6+"))
         if len(impl_out["groups"]) != len(impl_out["rescued"]):
             f.append("has_remnant")
@@ -645,6 +666,20 @@ class P(Prop):
         if nc and merged >= 2:
             f.append("component_split_into_2+_merged_groups")
         return f
+
+    @staticmethod
+    def _separates(edges, rec):
+        nodes_, s, t, cut = rec
+        ns = set(nodes_) - set(cut)
+        ad = {x: set() for x in ns}
+        for a, b in edges:
+            if a in ns and b in ns:
+                ad[a].add(b)
+                ad[b].add(a)
+        for c in _components(sorted(ns), ad):
+            if s in c and t in c:
+                return False
+        return True
 
     def shrink(self, case):
         pil = case["pil"]
@@ -667,3 +702,88 @@ class P(Prop):
             # the same peptide list through the direct entry
             c = {"mode": "direct", "pil": pil, "cutoff": rat(0.05), "np_seed": 0}
             yield c
+
+    # ------------------------------------------------------------------ extra stage: hash-seed independence
+    def extra(self, ctx):
+        """The rescue result is a function of the peptide list: the same cases are run in fresh interpreters
+        with different PYTHONHASHSEEDs (the graph code iterates over sets of node names) and must agree."""
+        import json
+        import os
+        import subprocess
+        import tempfile
+
+        lib.setup_impl_path()
+        if ctx.get("replay"):
+            rp = json.loads(open(ctx["replay"]).read())
+            cases = [rp["case"]] if "case" in rp else []
+        else:
+            rng = random.Random(ctx["seed"] * 7919 + 17)
+            cases, tries = [], 0
+            want = 40 if ctx["tier"] == "quick" else 300
+            while len(cases) < want and tries < want * 40:
+                tries += 1
+                c = self.gen_case(rng, "thorough")
+                if c["mode"] != "direct":
+                    continue
+                out = self.run_impl(c)
+                if not (isinstance(out, dict) and "_rec" in out and out["_rec"]["cuts"]):
+                    continue
+                # networkx iterates a sub-graph view in set (hash) order when it is less than half of the
+                # graph: prefer such components
+                small = any(2 * len(k[0]) < len(out["_rec"]["all_nodes"]) for k in out["_rec"]["cuts"])
+                if small or tries % 5 == 0:
+                    cases.append(c)
+        if not cases:
+            return {"evaluations": 0, "failures": [], "info": {"hashseed_cases": 0}}
+        seeds = ["1", "2", "3"] if ctx["tier"] == "quick" else ["1", "2", "3", "4", "5", "6"]
+        code = (
+            "import sys, json\n"
+            "sys.path.insert(0, %r)\n"
+            "import lib\n"
+            "lib.setup_impl_path()\n"
+            "P = lib.load_prop('C04')\n"
+            "cases = json.load(open(sys.argv[1]))\n"
+            "outs = []\n"
+            "for c in cases:\n"
+            "    try:\n"
+            "        o = P.run_impl(c)\n"
+            "        outs.append({k: o.get(k) for k in ('rescued', 'groups', 'obsolete')})\n"
+            "    except Exception as e:\n"
+            "        outs.append({'exc': type(e).__name__ + ': ' + str(e)[:200]})\n"
+            "json.dump(outs, open(sys.argv[2], 'w'))\n"
+        ) % str(lib.VERIF / "harness")
+        results = {}
+        with tempfile.TemporaryDirectory() as td:
+            cf = os.path.join(td, "cases.json")
+            with open(cf, "w") as fh:
+                json.dump(cases, fh)
+            procs = []
+            for hs in seeds:
+                of = os.path.join(td, "out%s.json" % hs)
+                env = lib.impl_env({"PYTHONHASHSEED": hs})
+                procs.append((hs, of, subprocess.Popen([lib.PY, "-c", code, cf, of], env=env, stderr=subprocess.PIPE, text=True)))
+            for hs, of, pr in procs:
+                _, err = pr.communicate(timeout=1800)
+                if pr.returncode != 0:
+                    raise RuntimeError("hash-seed run failed: " + err[-400:])
+                results[hs] = json.load(open(of))
+        failures = []
+        for i, c in enumerate(cases):
+            views = {hs: results[hs][i] for hs in seeds}
+            first = views[seeds[0]]
+            for hs in seeds[1:]:
+                if views[hs] != first:
+                    failures.append(
+                        {
+                            "case": c,
+                            "why": "the rescue result depends on the interpreter's hash seed: PYTHONHASHSEED=%s gives %r, PYTHONHASHSEED=%s gives %r"
+                            % (seeds[0], first.get("rescued", first), hs, views[hs].get("rescued", views[hs])),
+                            "impl": {"by_hashseed": views},
+                        }
+                    )
+                    break
+        return {
+            "evaluations": len(cases) * len(seeds),
+            "failures": failures[:5],
+            "info": {"hashseed_cases": len(cases), "hashseeds": seeds, "hashseed_differences": len(failures)},
+        }
